@@ -33,12 +33,12 @@ add(
     "C04",
     "exploration",
     "Hypothesis-generated blueprint reactors + state-change programs; round-trip oracle on an observe() record",
-    "Reactors are generated from blueprint text (hex third/full, both orientations, Cartesian full/quarter, pin lattices, SFP), "
+    "Reactors are generated from blueprint text (hex third/full, both orientations, Cartesian full/quarter, theta-R-Z, pin lattices, SFP), "
     "mutated by generated programs (typed parameter assignments at every level, temperatures, compositions, swaps, rotations, "
     "discharges, third-to-full conversion, free-coordinate placement) and written/loaded through the real Database; the loaded "
     "tree must be observationally equal, equal across two loads, and stable under load-write-load.",
     "observe() (vp/model/observe.py) defines observational equality; parameters that armi re-derives on load (area/volume caches, "
-    "block mass summaries, core maxAssemNum) are compared through the derived quantities; theta-RZ cores are not generated.",
+    "block mass summaries, core maxAssemNum) are compared through the derived quantities.",
     "DESIGN.md section 4, C04",
 )
 
